@@ -85,6 +85,11 @@ Ltac close I t Hpc :=
   try solve [intuition (try congruence; try discriminate; eauto)];
   try solve [firstorder (try congruence; try discriminate)].
 
+Ltac cntgoal I x :=
+  solve [ pose proof (i_calls _ I x); unfold cnt in *; simpl in *;
+          repeat match goal with |- context [Nat.eq_dec ?a ?b] => destruct (Nat.eq_dec a b) end;
+          try congruence; try lia ].
+
 Ltac byI I :=
   solve [ eapply (i_lt _ I); eauto | eapply (i_local _ I); eauto | eapply (i_owner _ I); eauto
         | eapply (i_pc_setup _ I); eauto | eapply (i_pc_store _ I); eauto | eapply (i_pc_app _ I); eauto
@@ -92,7 +97,7 @@ Ltac byI I :=
         | eapply (i_acc _ I); eauto | eapply (i_calls _ I); eauto ].
 
 Ltac pcsplit I t Hpc :=
-  intros x; intros; cmp x t; [close I t Hpc | try byI I;
+  intros x; intros; cmp x t; [close I t Hpc; try cntgoal I t | try byI I; try cntgoal I x;
     try solve [match goal with H : _ \/ _ |- _ => destruct H as [H|H]; [inversion H; subst; congruence | byI I] end]].
 
 Lemma step_thread_inv : forall c t s, Inv s -> Inv (step_thread c t s).
